@@ -35,3 +35,22 @@ def c09_stats_bytes_include_descriptor(sc, rec):
     d = rec.get('detail') or {}
     return (rec.get('clause') == 'stats-vs-descriptor' and rec.get('key') == 'bytes+descriptor' and d.get('stat_key') == 'bytes'
             and isinstance(d.get('stat'), int) and isinstance(d.get('recorded'), int) and d['stat'] - d['recorded'] == d.get('desc_size'))
+
+
+def c03_json_field_order(sc, rec):
+    """JSON format, a non-empty resource whose field names are not in alphabetical order, and the load() round trip
+    (not the independent decode) fails: load() raised a cast error or returned values paired with the wrong fields."""
+    d = rec.get('detail') or {}
+    if rec.get('clause') not in ('load-raised', 'roundtrip:values') or not d.get('json_nonalphabetical'):
+        return False
+    if ((sc or {}).get('opts') or {}).get('format') != 'json':
+        return False
+    return any(t.get('rows') and [f['name'] for f in t['fields']] != sorted(f['name'] for f in t['fields']) for t in (sc or {}).get('tables', []))
+
+
+def c03_crlf_in_csv_cell(sc, rec):
+    """CSV format, a string cell containing CR LF: load() returns it with a bare LF (the written file holds the CR LF:
+    the independent decode agrees with what was dumped)."""
+    d = rec.get('detail') or {}
+    return (rec.get('clause') == 'roundtrip:values' and rec.get('key') == 'string' and bool(d.get('crlf_to_lf'))
+            and ((sc or {}).get('opts') or {}).get('format', 'csv') == 'csv')
